@@ -120,7 +120,7 @@ pub fn run(ctx: &Ctx, st: &mut Stats) {
     }
     let pools = &pools;
     // all dates x date pictures
-    let stride = ctx.tier.pick(40_009, 11, 1);
+    let stride = ctx.tier.pick(40_009, ctx.q(11, 1), 1);
     ctx.par(st, "all dates x fixed + generated lossless date pictures", true, 0, (N_DAYS as i64 + stride - 1) / stride, |st, i, _| {
         let (y, m, d) = cal().of(MIN_DAY + (i * stride) as i32);
         let ps = &pools[0];
